@@ -131,3 +131,10 @@ Definition case_prog (k : ewkind) (x : expr) (zs : list val) (pos : position) : 
   if accepted k (length zs) && accepted_at k (length zs) pos then
     Some (EClosure [(uname 1000, VInt 0); (uname 1001, VErr None)] (case_body k x zs pos))
   else None.
+
+(* the wrapped call as an operand of other operators:  x := <tree>; observe(x)  inside func() (int, error);
+   pre = the hoisted block of an `expr?` leaf (SSkip if none) *)
+Definition opctx_prog (pre : stmt) (tree : expr) (probe : N) : expr :=
+  EClosure [(uname 1000, VInt 0); (uname 1001, VErr None)]
+    (SSeq pre (SSeq (SDefine [uname 1] [tree])
+              (SSeq (SExpr (EProbe probe (EVar (uname 1)))) (SReturn [EConst (VInt 7); nil_err])))).
